@@ -350,6 +350,8 @@ impl ImplState {
                 _ => "bad-op".into(),
             },
             "eng.judge1" if t.len() == 2 => "ok".into(),
+            "eng.judged" if t.len() == 4 => "ok".into(),
+            "eng.deeper" if t.len() == 1 => self.uci.verif_searcher().verif_deeper_hits.get().to_string(),
             "eng.judgelegal" if t.len() == 2 => "ok".into(),
             // eng.keys <837 keys>: the keys the engine's current searcher actually uses (after ucinewgame), for the model
             "eng.keys" if t.len() == 838 => "ok".into(),
